@@ -206,6 +206,9 @@ def walk_property(run):
     if pid == "C18":
         walkh.replay_c18(run, res.lines.get("BEH", []), run.seed, limit=1500 if q else 20000)
         walkh.single_file_output_case(run)
+        # over time, inside one process: calls aimed at a second output directory leave the first one alone, and the
+        # second one gets every page (GenRst.tla: SwitchOutput, OtherTargetUntouched)
+        regen_layer(run, "inproc")
         run.assumptions += ["inputs that trigger diagnostics are excluded from the stdout comparison (fixture files are clean)"]
         return ("TLC checks the effect invariants (no writes without -o, no prints with -o, file-system changes only at/below "
                 "an output directory inside the input tree, pages of a directory together and sorted) on the walk "
@@ -217,6 +220,8 @@ def walk_property(run):
     walkh.replay(run, pid, res.lines.get("BEH", []), run.seed, limit=6000 if q else 60000)
     if pid == "C14":
         walkh.two_inputs_case(run)
+        # the same tree documented again by the same process after a directory lost / regained its only CMake file
+        regen_layer(run, "inproc")
         # the walk as it was before the repair of F17 (linked directories stay in the toctree) violates C14_NoDangling
         res0 = lib.run_tlc("MC_Walk", walk_cfg(pid, "BeforeF17", "SmallTrees", "SmallPatternSets", outs, seps, emit=False).replace(
             "\n".join("INVARIANT " + i for i in WALK_INVS["C14"]), "INVARIANT C14_NoDangling"), want_violation=True, coverage=False)
@@ -227,6 +232,7 @@ def walk_property(run):
         walkh.file_input_case(run)
     if pid == "C13":
         regen_layer(run, "cli")
+        regen_layer(run, "inproc")
     # binding B: recorded walks over random trees (deeper, more names and patterns than the menus), validated by TLC
     import walktrace
     walktrace.run(run, pid, run.seed, 160 if q else 3000)
@@ -347,6 +353,9 @@ def c17(run):
     res = lib.run_tlc("MC_Runs", RUNS_CFG.format(maxin=3), tags=("BEH", "GEN"))
     run.add_tlc("MC_Runs(inputs<=3)", res)
     runsh.replay_c17(run, res.lines.get("BEH", []), run.seed, limit=350 if q else 6000)
+    # over time (GenRst.tla): what an earlier run left in the output directory, or in the interpreter, is no input either
+    regen_layer(run, "cli")
+    regen_layer(run, "inproc")
     run.assumptions += ["two directory inputs in one run write the same <out>/index.rst: colliding output paths are out of scope",
                         "moved trees keep their leaf name; listing order is imposed through os.walk"]
     return ("TLC enumerates run descriptors (spelling of the input path rel/abs/trailing slash/'.', working directory, "
@@ -357,18 +366,21 @@ def c17(run):
             "generated file is compared byte for byte with the canonical run of each input alone")
 
 
-GEN_CFG_T = "CONSTANT Dev <- {dev}\nCONSTANT MaxSteps = {n}\nCONSTANT Blind <- {blind}\nINIT Init\nNEXT Next\nINVARIANT C19_TreeIsCurrent\nINVARIANT Emit\n"
+GEN_CFG_T = "CONSTANT Dev <- {dev}\nCONSTANT MaxSteps = {n}\nCONSTANT Blind <- {blind}\nINIT Init\nNEXT Next\nINVARIANT C19_TreeIsCurrent\nPROPERTY OtherTargetUntouched\nINVARIANT Emit\n"
 
 
 def regen_layer(run, route):
     """GenRst.tla: repeated generation on one build tree with edits in between - through cminx_gen_rst (route "cmake",
-    C19) or by running the command line again into the same output directory (route "cli": C13, C12, C01)"""
+    C19) or by running the command line again into the same output directory (route "cli": C13, C12, C01, C17), or as calls of cminx.main() inside one process
+    (route "inproc": C13, C14, C17, C18)"""
     import runsh
     q = run.tier == "quick"
-    n = 3 if q else (5 if route == "cmake" else 4)
+    n = 3 if q else 4
     res2 = lib.run_tlc("MC_GenRst", GEN_CFG_T.format(dev="NoDev", n=n, blind="NoBlind"))
     run.add_tlc("MC_GenRst(steps<=%d, route %s)" % (n, route), res2)
     runsh.replay_genrst(run, res2.lines.get("BEH", []), route)
+    if route == "inproc":
+        return
     blind = "BlindUpperSettings" if route == "cmake" else "BlindSettingsBackdated"
     res0 = lib.run_tlc("MC_GenRst", GEN_CFG_T.format(dev="Stamp", n=3, blind=blind), want_violation=True, coverage=False)
     if not res0.violated:
